@@ -77,6 +77,12 @@ func Apply(doc, query, update bsonkit.Doc, upsert bool, arrayFilters bsonkit.Lis
 		return nil, fmt.Errorf("empty update document")
 	}
 
+	// check paths
+	err := checkPaths(*update)
+	if err != nil {
+		return nil, err
+	}
+
 	// prepare changes
 	changes := &Changes{
 		Upsert:   upsert,
@@ -85,7 +91,7 @@ func Apply(doc, query, update bsonkit.Doc, upsert bool, arrayFilters bsonkit.Lis
 	}
 
 	// update document according to update
-	err := Process(Context{
+	err = Process(Context{
 		Value:                changes,
 		TopLevel:             FieldUpdateOperators,
 		MultiTopLevel:        true,
@@ -101,6 +107,44 @@ func Apply(doc, query, update bsonkit.Doc, upsert bool, arrayFilters bsonkit.Lis
 	changes.pathTree = nil
 
 	return changes, nil
+}
+
+// checkPaths will return an error if two paths of the update are equal or one
+// is a prefix of the other. The check is done upfront as operators that do not
+// change the document do not record a change.
+func checkPaths(update bson.D) error {
+	// prepare tree
+	tree := bsonkit.NewPathNode()
+	defer tree.Recycle()
+
+	// check all operator paths
+	for _, operator := range update {
+		// get fields
+		fields, ok := operator.Value.(bson.D)
+		if !ok {
+			continue
+		}
+
+		// check fields
+		for _, field := range fields {
+			// collect paths
+			paths := []string{field.Key}
+			if target, ok := field.Value.(string); ok && operator.Key == "$rename" {
+				paths = append(paths, target)
+			}
+
+			// check and add paths
+			for _, path := range paths {
+				node, rest := tree.Lookup(path)
+				if node.Load() == true || rest == bsonkit.PathEnd {
+					return fmt.Errorf("conflicting key %q", path)
+				}
+				tree.Append(path).Store(true)
+			}
+		}
+	}
+
+	return nil
 }
 
 func applySet(ctx Context, doc bsonkit.Doc, _, path string, v interface{}) error {
